@@ -211,7 +211,13 @@ func commentText(r *RNG, enc string, light bool) []byte {
 }
 
 func breakLine(kind int, l string) string {
-	switch kind % 4 {
+	switch kind % 7 {
+	case 4: // statements that stop half way: the parser fails at the end of the line (of the file, if it is the last)
+		return "\tMOV\tCX,"
+	case 5:
+		return "\tDB\t1, 2,"
+	case 6:
+		return "\tMOV\tAX,[BX+"
 	case 0:
 		return l + " ,,"
 	case 1:
